@@ -121,15 +121,17 @@ Fixpoint read_sizes (n : nat) : rprog (list N) :=
   | S k => b <- rd 2 ;; r <- read_sizes k ;; rret (le_num b :: r)
   end.
 
-(** read each stream's bytes and append them to its bit buffer *)
-Fixpoint read_streams (sizes : list N) (streams : list bsr) : rprog (list bsr) :=
-  match sizes, streams with
-  | sz :: sr, st :: tr =>
+(** read each stream's bytes and append them to its bit buffer; the bytes of a
+    record of zero bit size carry no values and are never consumed: they are
+    read from the device and dropped, the bit buffer of the record stays as it is *)
+Fixpoint read_streams (proto : list dtype) (sizes : list N) (streams : list bsr) : rprog (list bsr) :=
+  match proto, sizes, streams with
+  | t :: pr', sz :: sr, st :: tr =>
       data <- rd sz ;;
-      st' <- rlift (bsr_append st data) ;;
-      r <- read_streams sr tr ;;
+      st' <- (if bit_size t =? 0 then rret st else rlift (bsr_append st data)) ;;
+      r <- read_streams pr' sr tr ;;
       rret (st' :: r)
-  | _, _ => rret []
+  | _, _, _ => rret []
   end.
 
 (** [parse_byte_streams]: records of zero bit size are skipped *)
@@ -172,7 +174,7 @@ Definition qr_advance (q : qr) : rprog qr :=
    | HData _ _ count =>
        if negb (count =? len (q_streams q)) then rfail EInvalid else
        sizes <- read_sizes (length (q_proto q)) ;;
-       streams <- read_streams sizes (q_streams q) ;;
+       streams <- read_streams (q_proto q) sizes (q_streams q) ;;
        if negb (has_sized (q_proto q)) then rfail ENotImpl else
        '(ss, qs) <- rlift (parse_streams (q_proto q) streams (q_queues q)) ;;
        rret (mkQr (q_proto q) ss qs)
